@@ -993,6 +993,190 @@ builtin.module {{
     return run_case(fn, replay, signature=lambda f, v: f["name"], sample=dict(shape=shape, layout=layout_txt, element_type=ety, via_memory_space_cast=via_msc), key=str(case))
 
 
+def digit_form(t, prefix, E):
+    """(index expressions, address) of a statically tiled layout written over one digit variable per tile level, so that
+    no division is needed: x_d = sum digit * inner size, address = sum digit * step. None for other layouts."""
+    from snaxc.dialects.tsl import TiledStridedLayoutAttr
+
+    if not isinstance(t.layout, TiledStridedLayoutAttr):
+        return None
+    ts = [[(s_.step, s_.bound) for s_ in tstride.strides] for tstride in t.layout.data.tstrides]
+    if any(st is None or b is None for d in ts for st, b in d):
+        return None
+    shape = dims_of(t)
+    idx, addr = [], z3.IntVal(0)
+    for d, levels in enumerate(ts):
+        inner, x = 1, z3.IntVal(0)
+        for k in range(len(levels) - 1, -1, -1):
+            st, b = levels[k]
+            dg = z3.Int(f"{prefix}{d}_{k}")
+            hi = b if k > 0 else -(-shape[d] // inner)
+            E.assume(z3.And(dg >= 0, dg < hi))
+            x = x + dg * inner
+            addr = addr + dg * st
+            inner *= b
+        E.assume(x < shape[d])
+        idx.append(x)
+    return idx, addr
+
+
+def case_subview_global(case):
+    """A global whose only use is one tile subview feeding a layout cast: realize-memref-casts gives the global a new
+    layout in which that tile has the requested layout. The new layout must keep distinct elements apart, the tile
+    view's type must address exactly the viewed elements, and an initial value must end up where the layout says."""
+    from xdsl.dialects import builtin, memref
+    from xdsl.parser import Parser
+
+    gshape, tile, layout_txt, offs, init = case
+    G, Tl = "x".join(map(str, gshape)), "x".join(map(str, tile))
+    n = gshape[0] * gshape[1]
+    vals = [(7 * k + 3) % 1000 for k in range(n)]
+    rows = ", ".join("[" + ", ".join(str(vals[r * gshape[1] + c]) for c in range(gshape[1])) + "]" for r in range(gshape[0]))
+    iv = f"initial_value = dense<[{rows}]> : tensor<{G}xi32>" if init else "initial_value"
+    VT = f"memref<{Tl}xi32, strided<[{gshape[1]}, 1], offset: {offs[0] * gshape[1] + offs[1]}>>"
+    CT = f"memref<{Tl}xi32, {layout_txt}>"
+    src = f"""
+builtin.module {{
+  "memref.global"() <{{alignment = 64 : i64, {iv}, sym_name = "w", sym_visibility = "private", type = memref<{G}xi32>}}> : () -> ()
+  func.func public @f() {{
+    %g = memref.get_global @w : memref<{G}xi32>
+    %v = memref.subview %g[{offs[0]}, {offs[1]}] [{tile[0]}, {tile[1]}] [1, 1] : memref<{G}xi32> to {VT}
+    %c = "snax.layout_cast"(%v) : ({VT}) -> {CT}
+    "test.op"(%c) {{tag = 1 : i32}} : ({CT}) -> ()
+    func.return
+  }}
+}}
+"""
+
+    def fn():
+        E = eng()
+        main = xshim.make_main()
+        m = Parser(main.ctx, src).parse_module()
+        m.verify()
+        xshim.apply_passes(m, "realize-memref-casts", main)
+        m.verify()
+        use = [o for o in m.walk() if o.name == "test.op"][0]
+        v = use.operands[0]
+        if not isinstance(v.owner, memref.SubviewOp) or not isinstance(v.owner.source.owner, memref.GetGlobalOp):
+            # not re-laid-out at compile time (copy at run time): covered by the program section
+            E.oblige("subview_global:relayout_or_run_time_copy", v.owner.name in ("memref.alloc", "snax.layout_cast", "memref.subview"), dict(owner=v.owner.name))
+            E.oblige("explored", True)
+            return
+        sv = v.owner
+        gg = sv.source.owner
+        gname = gg.name_.string_value()
+        glob = [o for o in m.walk() if isinstance(o, memref.GlobalOp) and o.sym_name.data == gname][0]
+        fg = addr_fn(gg.results[0].type)
+        fv = addr_fn(v.type)
+        E.oblige("subview_global:layouts_static", fg is not None and fv is not None, dict(global_type=str(gg.results[0].type), view_type=str(v.type)))
+        if fg is None or fv is None:
+            return
+        dx, dy = digit_form(gg.results[0].type, "dx", E), digit_form(gg.results[0].type, "dy", E)
+        if dx is None:
+            x = [z3.Int(f"x{d}") for d in range(2)]
+            y = [z3.Int(f"y{d}") for d in range(2)]
+            for a, bnd in zip(x + y, list(gshape) + list(gshape)):
+                E.assume(z3.And(a >= 0, a < bnd))
+            ax, ay = fg(x), fg(y)
+        else:
+            (x, ax), (y, ay) = dx, dy
+        E.oblige("subview_global:new_layout_keeps_distinct_elements_apart", z3.Implies(ax == ay, z3.And(x[0] == y[0], x[1] == y[1])),
+                 dict(layout=str(gg.results[0].type.layout), shape=gshape))
+        i = [z3.Int(f"i{d}") for d in range(2)]
+        for a, bnd in zip(i, tile):
+            E.assume(z3.And(a >= 0, a < bnd))
+        so = [o if o >= 0 else None for o in sv.static_offsets.get_values()]
+        # relative to the tile's first element: the pointer of a view is derived from the subview's offsets
+        # (convert-memref-to-arith, C10), the layout in its type describes positions from there
+        dv, dg = digit_form(v.type, "dv", E), digit_form(gg.results[0].type, "dg", E)
+        if None in so:
+            cond = z3.BoolVal(so == list(offs))
+        elif dv is not None and dg is not None:
+            (iv_, av), (xg, axg) = dv, dg
+            cond = z3.Implies(z3.And(xg[0] == iv_[0] + so[0], xg[1] == iv_[1] + so[1]), av - fv([0, 0]) == axg - fg([so[0], so[1]]))
+        else:
+            zero = [z3.IntVal(0), z3.IntVal(0)]
+            cond = fv(i) - fv(zero) == fg([i[0] + so[0], i[1] + so[1]]) - fg([z3.IntVal(so[0]), z3.IntVal(so[1])])
+        E.oblige("subview_global:tile_view_addresses_the_viewed_elements", cond,
+                 dict(view_type=str(v.type), global_layout=str(gg.results[0].type.layout), offsets=so))
+        if init:
+            ival = glob.initial_value
+            has = isinstance(ival, builtin.DenseIntOrFPElementsAttr)
+            E.oblige("subview_global:initial_value_kept", has, dict(initial_value=str(ival)[:40]))
+            if has:
+                out = [int(q) for q in ival.get_values()]
+                A = z3.K(z3.IntSort(), z3.IntVal(-1))
+                for k, q in enumerate(out):
+                    A = z3.Store(A, k, q)
+                S = z3.K(z3.IntSort(), z3.IntVal(-2))
+                for k, q in enumerate(vals):
+                    S = z3.Store(S, k, q)
+                E.oblige("subview_global:element_at_prescribed_address_is_the_logical_element", z3.Select(A, ax) == z3.Select(S, x[0] * gshape[1] + x[1]))
+        E.oblige("explored", True)
+
+    return run_case(fn, lambda f: replay_pinned(fn, f), signature=lambda f, v: f["name"], sample=dict(case=str(case)), key=str(case))
+
+
+def case_dynamic_shape(case):
+    """A cast value with run-time sizes: the stand-in allocation must get the size of dimension d of the original for
+    its d-th dimension (sizes are symbolic), and the copies go between the two."""
+    from xdsl.dialects import memref
+    from xdsl.parser import Parser
+
+    shape, uses = case  # None = dynamic
+    shp = "x".join("?" if d is None else str(d) for d in shape)
+    T3, T1 = f'memref<{shp}xi32, "L3">', f'memref<{shp}xi32, "L1">'
+    body = []
+    if "in" in uses:
+        body.append(f'    "test.op"(%c) {{tag = 1 : i32}} : ({T1}) -> ()')
+    src = f"""
+builtin.module {{
+  func.func public @f(%a : {T3}) {{
+    %c = "memref.memory_space_cast"(%a) : ({T3}) -> {T1}
+{chr(10).join(body)}
+    func.return
+  }}
+}}
+"""
+
+    def fn():
+        E = eng()
+        main = xshim.make_main()
+        m = Parser(main.ctx, src).parse_module()
+        m.verify()
+        xshim.apply_passes(m, "realize-memref-casts", main)
+        m.verify()
+        sizes = [z3.Int(f"n{d}") if sd is None else z3.IntVal(sd) for d, sd in enumerate(shape)]
+        for v in sizes:
+            E.assume(v >= 1)
+        I = irsym.Interp(intmode=True)
+        allocs = []
+
+        def h_dim(I, op):
+            idx = I.get(op.index)
+            idx = z3.simplify(idx).as_long() if z3.is_expr(idx) else int(idx)
+            I.set(op.results[0], sizes[idx] if 0 <= idx < len(sizes) else z3.IntVal(-1))
+
+        def h_alloc(I, op):
+            dyn = iter(I.get(o) for o in op.dynamic_sizes)
+            got = [next(dyn) if d == -1 or d is None or d < 0 else z3.IntVal(d) for d in op.results[0].type.get_shape()]
+            allocs.append(got)
+            I.set(op.results[0], Opaque("standin"))
+
+        I.handlers.update({"memref.dim": h_dim, "memref.alloc": h_alloc, "memref.copy": lambda I, op: None, "test.op": lambda I, op: None,
+                           "memref.memory_space_cast": lambda I, op: I.set(op.results[0], I.get(op.operands[0])), "memref.dealloc": lambda I, op: None})
+        f = [g for g in irsym.module_funcs(m) if g.sym_name.data == "f"][0]
+        I.run_func(f, [Opaque("arg")])
+        E.oblige("dynamic_shape:one_stand_in", len(allocs) == 1, dict(allocations=len(allocs)))
+        for got in allocs:
+            E.oblige("dynamic_shape:stand_in_rank", len(got) == len(sizes))
+            for d, (g_, w_) in enumerate(zip(got, sizes)):
+                E.oblige("dynamic_shape:stand_in_has_the_size_of_the_original_in_every_dimension", g_ == w_, dict(dimension=d, shape=shp))
+        E.oblige("explored", True)
+
+    return run_case(fn, lambda f: replay_pinned(fn, f), signature=lambda f, v: f["name"], sample=dict(shape=shp), key=str(case))
+
+
 def case_transpose(case):
     """RemoveTransposeConstants.transpose_tuple on symbolic contents: out[i][j] == in[j][i] for every position."""
     from snaxc.transforms.frontend.remove_transpose_constants import RemoveTransposeConstants
@@ -1116,10 +1300,29 @@ def run(chk):
         if len(shape) <= 2 and (not quick or k % 2 == 0):
             glob.append((shape, txt, ("i8", "i32", "f32", "f64", "i16", "f16", "index")[k % 7], k % 3 == 0))
     chk.add_results("global_relayout", pmap(case_global_relayout, glob, chunks=4))
+    sg = []
+    for gshape, tile, lay in (((16, 16), (8, 8), "#tsl.tsl<[8] -> (8), [8] -> (1)>"), ((16, 16), (8, 8), "#tsl.tsl<[2, 4] -> (32, 4), [2, 4] -> (16, 1)>"),
+                              ((16, 8), (8, 8), "#tsl.tsl<[8] -> (1), [8] -> (8)>"), ((8, 32), (8, 8), "#tsl.tsl<[8] -> (8), [2, 4] -> (4, 1)>"),
+                              ((24, 16), (8, 8), "#tsl.tsl<[8] -> (8), [8] -> (1)>"), ((16, 16), (4, 8), "#tsl.tsl<[4] -> (8), [8] -> (1)>")):
+        for offs in ((0, 0), (tile[0] if gshape[0] > tile[0] else 0, tile[1] if gshape[1] > tile[1] else 0)):
+            sg.append((gshape, tile, lay, offs, False))
+    # with an initial value (smaller: the contents are a z3 array addressed by the symbolic index)
+    for gshape, tile, lay in (((8, 8), (4, 4), "#tsl.tsl<[4] -> (4), [4] -> (1)>"), ((8, 8), (4, 4), "#tsl.tsl<[2, 2] -> (8, 2), [2, 2] -> (4, 1)>"),
+                              ((8, 4), (4, 4), "#tsl.tsl<[4] -> (1), [4] -> (4)>"), ((4, 16), (4, 4), "#tsl.tsl<[4] -> (4), [2, 2] -> (2, 1)>"),
+                              ((12, 8), (4, 4), "#tsl.tsl<[4] -> (4), [4] -> (1)>")):
+        for offs in ((0, 0), (tile[0] if gshape[0] > tile[0] else 0, tile[1] if gshape[1] > tile[1] else 0)):
+            sg.append((gshape, tile, lay, offs, True))
+    if True:
+        if True:
+            if True:
+                pass
+    chk.add_results("subview_of_global_relayout", pmap(case_subview_global, sg, chunks=2))
+    dshapes = [(6, None), (None, 3, None), (None, None), (None, 128), (2, None, None, 4), (None, 5), (3, 4, None)]
+    chk.add_results("dynamic_stand_in_shape", pmap(case_dynamic_shape, [(sh, ("in",)) for sh in dshapes], chunks=2))
     tr = [(r, c) for r in range(1, 6) for c in range(1, 6)]
     chk.add_results("transpose_tuple", pmap(case_transpose, tr if not quick else tr[::2], chunks=2))
     chk.add_results("transpose_pattern", pmap(case_transpose_pattern, [(2, 3), (3, 2), (4, 4), (1, 5), (5, 1), (3, 5)], chunks=2))
     chk.bounds = dict(programs=len(progs), buffers="4x4 i32: 2 arguments, 2 allocations, 1 constant global, 1 constant; <=3 row-tile views (2x4) at offsets {0,2,symbolic 0..2}",
                       nesting="<=2", unroll_K=2, relayout_cases=len(lays), relayout_shapes=shapes, transpose_shapes="1..5 x 1..5")
-    chk.outside = ["dynamic shapes (memref.dim path of RealizeMemrefCasts)", "uninitialised globals", "several get_global ops of one global",
+    chk.outside = ["dynamic shapes beyond the size operands of the stand-in allocation (contents are only compared for static shapes)", "uninitialised globals in the program section (the subview-of-global section has them)", "several get_global ops of one global",
                    "non-dense or dynamic target layouts (the pass declines them)", "accelerator operations that read their output operand"]
